@@ -9,6 +9,10 @@ CHECKS = {
          "exhaustive small-scope enumeration of encoder inputs and parser faults against an independent reference codec and crypto/tls",
          "Every (config id, public-name length 1..255, ordered suite list, key length) product point is encoded by the real code and compared byte-for-byte with an independent draft §4 builder/parser; every prefix, field-level truncation and byte substitution of valid lists is fed to the parser; crypto/tls client and server and ech.NewConn must accept the configs. Exhaustive over the stated finite grid, which is the right level for a pure codec.",
          "trusts tlsref (independent codec) and crypto/tls; public names for the crypto/tls part are 2+-label LDH names of 3..253 bytes (crypto/tls refuses others)", "§3 C11"),
+ "C15": ("model_checking", "E1 enum",
+         "reference function (executable model) + total replay: every enumerated ResolveResult is run through the real Targets and compared with the model; byte-level snapshot oracle for purity",
+         "All ResolveResults over a small but complete alphabet (1 record: full per-record domain; 0,2,3 records: reduced domain) x address lists x Additional maps x ports x 6 networks x early-termination points are evaluated on the real Targets and compared with an executable reference; a snapshot of every reachable byte including spare slice capacity is compared before/after. Every model trace is replayed against the implementation.",
+         "reference function written from the property text/RFC 9460; ALPN compared as a set; records naming a target without known addresses may contribute nothing or their hints", "§3 C15"),
 }
 
 NOT_YET = {}
